@@ -210,4 +210,158 @@ theorem skipGap_gap : ∀ (g : Gap) (rest : List Nat), gapOk g = true → starts
     | ws cs => rw [Piece.text, skipGap_ws _ _ (by simpa [Piece.ok] using hg.1), ih]
     | comment c => rw [Piece.text, skipGap_comment _ _ (by simpa [Piece.ok] using hg.1), ih]
 
+/-! ## `is_next_character`: the gap after `function`, `list`, `range`, `context` -/
+
+theorem skipComment_lt_of_starts : ∀ (cs : List Nat), startsComment cs = true →
+    (skipComment cs).length < cs.length := by
+  intro cs h
+  match cs, h with
+  | c :: d :: ds, h =>
+    simp only [startsComment, Bool.and_eq_true, Bool.or_eq_true] at h
+    simp only [skipComment, h.1, if_true]
+    rcases h.2 with hd | hd
+    · simp only [hd, if_true]
+      have := (skipLine_suffix ds).length_le
+      simp only [List.length_cons]; omega
+    · by_cases h2 : (d == 0x2F) = true
+      · simp only [h2, if_true]
+        have := (skipLine_suffix ds).length_le
+        simp only [List.length_cons]; omega
+      · simp only [h2, hd, if_true, Bool.false_eq_true, if_false]
+        have := (skipBlock_suffix ds).length_le
+        simp only [List.length_cons]; omega
+
+/-- The budget of `nextIs` is never exhausted: any larger one gives the same answer. -/
+theorem nextIsLoop_fuel (chars : List Nat) : ∀ (f1 f2 : Nat) (cs : List Nat),
+    cs.length < f1 → cs.length < f2 → nextIsLoop chars f1 cs = nextIsLoop chars f2 cs := by
+  intro f1
+  induction f1 with
+  | zero => intro f2 cs h; omega
+  | succ n ih =>
+    intro f2 cs h1 h2
+    cases f2 with
+    | zero => omega
+    | succ m =>
+      cases cs with
+      | nil => simp [nextIsLoop]
+      | cons c t =>
+        simp only [nextIsLoop]
+        simp only [List.length_cons] at h1 h2
+        split
+        · rename_i hs
+          have := skipComment_lt_of_starts _ hs
+          simp only [List.length_cons] at this
+          exact ih m _ (by omega) (by omega)
+        · split
+          · rfl
+          · split
+            · rfl
+            · exact ih m t (by omega) (by omega)
+
+theorem nextIsLoop_eq_nextIs (chars : List Nat) (f : Nat) (cs : List Nat) (h : cs.length < f) :
+    nextIsLoop chars f cs = nextIs chars cs :=
+  nextIsLoop_fuel chars f (cs.length + 1) cs h (by omega)
+
+theorem plain_not_ws {chars : List Nat} (hp : plainChars chars = true) {c : Nat}
+    (hc : isWhitespace c = true) : chars.contains c = false := by
+  cases hcc : chars.contains c with
+  | false => rfl
+  | true =>
+    have hmem : c ∈ chars := by simpa using hcc
+    have := List.all_eq_true.mp hp c hmem
+    simp [hc] at this
+
+theorem ws_not_slash {c : Nat} (hc : isWhitespace c = true) : (c == 0x2F) = false := by
+  cases h : c == 0x2F with
+  | false => rfl
+  | true =>
+    have : c = 0x2F := by simpa using h
+    subst this
+    exact absurd hc (by decide)
+
+/-- White space in front changes nothing. -/
+theorem nextIs_ws (chars : List Nat) (hp : plainChars chars = true) (w X : List Nat) (h : allWs w = true) :
+    nextIs chars (w ++ X) = nextIs chars X := by
+  induction w with
+  | nil => rfl
+  | cons c w ih =>
+    simp only [allWs, List.all_cons, Bool.and_eq_true] at h
+    have hs : startsComment (c :: (w ++ X)) = false := by
+      cases hwx : w ++ X with
+      | nil => rfl
+      | cons d ds => simp [startsComment, ws_not_slash h.1]
+    have : nextIs chars (c :: (w ++ X)) = nextIs chars (w ++ X) := by
+      simp only [nextIs, List.length_cons, nextIsLoop, hs, plain_not_ws hp h.1, h.1,
+        Bool.false_eq_true, if_false, Bool.not_true]
+    rw [List.cons_append, this]
+    exact ih (by simpa [allWs] using h.2)
+
+/-- At a comment opener `is_next_character` goes on after the comment. -/
+theorem nextIs_starts (chars : List Nat) (cs : List Nat) (hs : startsComment cs = true) :
+    nextIs chars cs = nextIs chars (skipComment cs) := by
+  have hlt := skipComment_lt_of_starts cs hs
+  cases cs with
+  | nil => simp [startsComment] at hs
+  | cons c t =>
+    have : nextIs chars (c :: t) = nextIsLoop chars (t.length + 1) (skipComment (c :: t)) := by
+      show nextIsLoop chars ((c :: t).length + 1) (c :: t) = _
+      simp only [List.length_cons]
+      rw [nextIsLoop]
+      simp only [hs, if_true]
+    rw [this]
+    exact nextIsLoop_eq_nextIs chars _ _ (by simpa using hlt)
+
+/-- A comment in front changes nothing. -/
+theorem nextIs_comment (chars : List Nat) (hp : plainChars chars = true) (c : Comment) (X : List Nat)
+    (h : c.ok = true) : nextIs chars (c.text ++ X) = nextIs chars X := by
+  cases c with
+  | line body =>
+    simp only [Comment.ok] at h
+    have hsk : skipComment (Comment.text (.line body) ++ X) = 0x0A :: X := by
+      simp only [Comment.text, List.cons_append, List.append_assoc, List.nil_append, skipComment,
+        beq_self_eq_true, if_true]
+      exact skipLine_body _ _ h
+    have hs : startsComment (Comment.text (.line body) ++ X) = true := by
+      simp [Comment.text, startsComment]
+    rw [nextIs_starts chars _ hs, hsk]
+    exact nextIs_ws chars hp [0x0A] X (by decide)
+  | block body =>
+    simp only [Comment.ok] at h
+    have hsk : skipComment (Comment.text (.block body) ++ X) = X := by
+      have h2 : ((0x2A : Nat) == 0x2F) = false := by decide
+      simp only [Comment.text, List.cons_append, List.append_assoc, List.nil_append, skipComment,
+        beq_self_eq_true, if_true, h2, Bool.false_eq_true, if_false]
+      exact skipBlock_body _ _ h
+    have hs : startsComment (Comment.text (.block body) ++ X) = true := by
+      simp [Comment.text, startsComment]
+    rw [nextIs_starts chars _ hs, hsk]
+
+/-- At a token start the first character decides. -/
+theorem nextIs_token (chars : List Nat) (rest : List Nat) (h : startsToken rest = true) :
+    nextIs chars rest = headIn chars rest := by
+  cases rest with
+  | nil => rfl
+  | cons c cs =>
+    simp only [startsToken, Bool.and_eq_true, Bool.not_eq_true'] at h
+    have hs : startsComment (c :: cs) = false := by
+      cases cs with
+      | nil => rfl
+      | cons d ds => simpa [startsComment] using h.2
+    simp only [nextIs, List.length_cons, nextIsLoop, hs, Bool.false_eq_true, if_false, headIn, h.1,
+      Bool.not_false, if_true]
+    split <;> simp_all
+
+/-- Whatever gap stands between the keyword and the next token, `is_next_character` answers by
+the first character of that token. -/
+theorem nextIs_gap (chars : List Nat) (hp : plainChars chars = true) : ∀ (g : Gap) (rest : List Nat),
+    gapOk g = true → startsToken rest = true → nextIs chars (gapText g ++ rest) = headIn chars rest
+  | [], rest, _, hr => by simpa [gapText] using nextIs_token chars rest hr
+  | p :: ps, rest, hg, hr => by
+    simp only [gapOk, List.all_cons, Bool.and_eq_true] at hg
+    have ih := nextIs_gap chars hp ps rest (by simpa [gapOk] using hg.2) hr
+    simp only [gapText, List.append_assoc]
+    cases p with
+    | ws cs => rw [Piece.text, nextIs_ws chars hp _ _ (by simpa [Piece.ok] using hg.1), ih]
+    | comment c => rw [Piece.text, nextIs_comment chars hp _ _ (by simpa [Piece.ok] using hg.1), ih]
+
 end Dmn.GapLayout
